@@ -106,7 +106,14 @@ pub fn gen(a: &Args) -> i32 {
                 writeln!(out, "flush").unwrap();
                 placements += 1;
             } else if x < 94 {
-                writeln!(out, "compact").unwrap();
+                if r.chance(1, 3) {
+                    // a compaction round during which (inputs hidden, output written, manifest not yet switched) the
+                    // current memtable is flushed, as the two background tasks do side by side
+                    writeln!(out, "compactflush").unwrap();
+                    st.bump("op_flush_during_compaction");
+                } else {
+                    writeln!(out, "compact").unwrap();
+                }
                 placements += 1;
                 st.bump("op_compact");
                 if c11 {
@@ -299,6 +306,26 @@ pub fn exec(a: &Args) -> i32 {
                 Some("flush") => {
                     let t = st.as_ref().unwrap().tree.as_ref().unwrap();
                     match vs::rotate(t).and_then(|_| vs::flush_immutables(t)) {
+                        Ok(()) => "ok".into(),
+                        Err(e) => format!("err:{}", e.replace(' ', "_")),
+                    }
+                }
+                Some("compactflush") => {
+                    // (a clone of the `Tree` handle would close the store when dropped: the handler gets the address)
+                    let t: &Tree = st.as_ref().unwrap().tree.as_ref().unwrap();
+                    let addr = t as *const Tree as usize;
+                    let done = std::sync::Arc::new(std::sync::atomic::AtomicBool::new(false));
+                    let d2 = std::sync::Arc::clone(&done);
+                    surrealkv::verif::set_yield_handler(Some(std::sync::Arc::new(move |name: &'static str| {
+                        if name == "compact.output_written" && !d2.swap(true, std::sync::atomic::Ordering::SeqCst) {
+                            // SAFETY: the tree outlives the synchronous compaction round below; the handler is removed after it
+                            let t2: &Tree = unsafe { &*(addr as *const Tree) };
+                            let _ = vs::rotate(t2).and_then(|_| vs::flush_immutables(t2));
+                        }
+                    })));
+                    let r = vs::compact_round(t);
+                    surrealkv::verif::set_yield_handler(None);
+                    match r {
                         Ok(()) => "ok".into(),
                         Err(e) => format!("err:{}", e.replace(' ', "_")),
                     }
